@@ -469,9 +469,7 @@ def make_check():
                     if sorted(repr(G.vj(v)) for v, _ in now_items) != sorted(repr(G.vj(v)) for v, _ in items):
                         fail("failed-sort-rearranges", G.vj([v for v, _ in before_pairs]), G.vj([v for v, _ in now_items]))
                     if exp_exc is not None or raised is not None:
-                        extra["same_order_as_list"] = [v for v, _ in now_items] == ref.values()
                         ref.items = now_items
-                        extra.clear()
                 elif name == "sort" and op.get("key") is None:
                     # not demanded to succeed (elements define no ordering; sequence members compare as Python lists,
                     # so a key-less sort may go through): if it returns, the members are a rearrangement of what was there
